@@ -277,16 +277,21 @@ def run(run):
     trues = [n for n in A.own_nodes(sa) if isinstance(n, ast.Return) and isinstance(n.value, ast.Tuple)
              and isinstance(n.value.elts[0], ast.Constant) and n.value.elts[0].value is True]
     for r in trues:
-        run.check("R2", norm(r.value.elts[1]) == "HSM2DongleSignature(response[1][self.OFF.DATA:])", "signature parsed from the last answer's data",
-                  key="sign_authorized|signature-source", where=sa.loc(r), message=f"authorized signing returns `{norm(r.value.elts[1])}`")
         for rn in ga.nodes_of(r):
-            rd = PV.reaching(sa, D, "response", rn)
-            run.check("R2", len(rd) == 1 and rd[0].value is chunks[-1], "that answer is the merkle-proof step's", key="sign_authorized|signature-answer",
+            # what the second element stands for, with temporaries expanded up to the answer variable
+            sv = {_strip(x) for x in PV.expand_consistent(sa, D, r.value.elts[1], rn, stop=("response",))}
+            run.check("R2", sv == {_strip("HSM2DongleSignature(response[1][self.OFF.DATA:])")}, "signature parsed from the last answer's data",
+                      key="sign_authorized|signature-source", where=sa.loc(r), message=f"authorized signing returns `{sorted(sv)[:1]}`")
+            # ... where `response` is the answer of the last step: at the place the signature is parsed
+            pn = [x for c_ in find_calls(A, sa, "HSM2DongleSignature") for x in ga.nodes_of(c_)] or [rn]
+            rd = [d for n_ in pn for d in PV.reaching(sa, D, "response", n_)]
+            run.check("R2", bool(rd) and all(d.value is chunks[-1] for d in rd), "that answer is the merkle-proof step's", key="sign_authorized|signature-answer",
                       where=sa.loc(r), message="the signature is not taken from the answer that completed the last step")
     for r in [n for n in A.own_nodes(su) if isinstance(n, ast.Return) and isinstance(n.value, ast.Tuple)
               and isinstance(n.value.elts[0], ast.Constant) and n.value.elts[0].value is True]:
-        run.check("R2", norm(r.value.elts[1]) == "HSM2DongleSignature(response[self.OFF.DATA:])", "unauthorized signature from the answer's data",
-                  key="sign_unauthorized|signature-source", where=su.loc(r), message=f"unauthorized signing returns `{norm(r.value.elts[1])}`")
+        svu = {_strip(x) for rn in gs.nodes_of(r) for x in PV.expand_consistent(su, D, r.value.elts[1], rn, stop=("response",))}
+        run.check("R2", svu == {_strip("HSM2DongleSignature(response[self.OFF.DATA:])")}, "unauthorized signature from the answer's data",
+                  key="sign_unauthorized|signature-source", where=su.loc(r), message=f"unauthorized signing returns `{sorted(svu)[:1]}`")
         okS, SUCC = try_fold(P, ast.parse("self.OP.SIGN.SUCCESS", mode="eval").body, su, D)
         okO, OPI_ = try_fold(P, ast.parse("self.OFF.OP", mode="eval").body, su, D)
         us_send = find_calls(A, su, "_send_command")
